@@ -6,10 +6,14 @@ from ekw.core import lean_drive
 
 LEAN_DRIVERS = ["Ctrl"]
 RULE = ("random job DAGs (0-8 tasks quick / 0-14 thorough; chains, diamonds, fan-in/out, multi-output tasks, isolated tasks, several "
-        "components, GPU tasks, any subset of requested outputs incl. non-sinks) x clusters (1-3 hosts x 1-3 workers, GPU subsets "
+        "components, GPU tasks, any subset of requested outputs incl. non-sinks; family wide, two cases per run + 0.5 %: 33-45 source tasks "
+        "under a shallow join tree in one or two components on 8-15 hosts x 3-4 workers, so that one assign() round hands out >= 32 commands "
+        "(counted: rounds_with_32_or_more_assignments), each replayed by a driver process of its own) x clusters (1-3 hosts x 1-3 workers, GPU subsets "
         "keeping the job feasible) x adversarial seeded schedules of the abstract executors (any order + batching of events, and "
         "FIFO-per-production order; task bodies publish their outputs one at a time while controller rounds go on; in half of the runs executor steps also happen "
-        "BETWEEN the bridge calls of one controller round; transfer notices that travel slowly; a third of the runs with a report address, i.e. through the real Reporter); "
+        "BETWEEN the bridge calls of one controller round; transfer notices that travel slowly; a third of the runs with a report address, i.e. through the real Reporter; in half of the runs the "
+        "values of requested outputs reach the controller wrapped in StrictVal, a value whose ==/!=/bool raise like those of arrays do, so that any look at a delivered "
+        "value other than `is` is a controller exception); "
         "the REAL controller.impl.run is driven in-process through SimBridge, which interprets everything a command carries at the Bridge API (a body publishes only the "
         "outputs named in TaskSequence.publish); at initialisation, after assign()+act(), after plan(), after flush_queues() and after notify() the abstraction of the real State "
         "(incl. published_outputs) is compared with the Lean model, the commands incl. their publish sets and their order (up to set/dict iteration order), the scan order of "
@@ -89,14 +93,18 @@ def correspond(ctx, prop):
     for f in sorted(glob.glob(str(CORPUS_DIR / "Ctrl_*.json"))):
         corpus.append(json.load(open(f)))
     cases = list(corpus)
+    from concurrent.futures import ThreadPoolExecutor
+    wide_pool = ThreadPoolExecutor(max_workers=4 if prop == "C01" else 6)      # C01 runs real clusters beside this
+    wide_jobs = []
     for i in range(n):
         seed = ctx.rng.randrange(1 << 30) ^ salt
         import random
         rng = random.Random(seed)
-        spec = S.gen_job(rng, maxn)
+        # wide family (>= 32 assignments in one round): one any-order and one fifo case in every run, and 0.5 % of the rest
+        spec = S.gen_job(rng, maxn, wide=1.0 if i in (3, 4) else 0.005)
         ws = S.gen_cluster(rng, spec, ctx.budget(3, 4), ctx.budget(3, 4))
         case = {"spec": spec, "workers": ws, "seed": seed, "fifo": i % 2 == 0, "report": rng.random() < 0.3}
-        if spec["ext"] and rng.random() < 0.08:
+        if spec["ext"] and spec.get("family") != "wide" and rng.random() < 0.08:
             # a requested output whose VALUE is None (oracle-only run: the model's values are never None)
             case["none_output"] = list(rng.choice(spec["ext"]))
         cases.append(case)
@@ -123,8 +131,15 @@ def correspond(ctx, prop):
                     cases[ci] = c
                     res = r2
                     break
-        runs.append(res)
-        batch_cases.append(c)
+        if c["spec"].get("family") == "wide" and c.get("none_output") is not None:
+            pass        # oracle-only run (the model's values are never None): nothing to replay
+        elif c["spec"].get("family") == "wide":
+            # the replay of a wide run takes the (interpreted) driver 5-15 s: each one is replayed by a driver process of its
+            # own, in the background, while the other cases run; compared at the end
+            wide_jobs.append((wide_pool.submit(lean_drive, "CtrlX" if prop == "C03" else "Ctrl", S.model_lines(res["trace"])), res, c))
+        else:
+            runs.append(res)
+            batch_cases.append(c)
         if len(runs) >= 300:
             _replay_batch(ctx, prop, runs, batch_cases)
             runs, batch_cases = [], []   # traces are large: keeping thousands alive makes the GC pauses exceed run_case's alarm
@@ -141,6 +156,10 @@ def correspond(ctx, prop):
             ctx.count(k, st[k])
         ctx.count("controller_rounds", res["rounds"])
         ctx.count("runs_atomic_bodies" if st["atomic_bodies"] else "runs_nonatomic_bodies")
+        if st.get("strict_values"):
+            ctx.count("runs_whose_delivered_values_refuse_comparison(StrictVal)")
+        if st.get("family"):
+            ctx.count("family:" + st["family"])
         ctx.count("controller_steps_while_a_body_is_between_two_outputs", st["rounds_while_running"])
         if st["max_running"] > 1:
             ctx.count("runs_with_several_bodies_running_at_once")
@@ -166,13 +185,18 @@ def correspond(ctx, prop):
             def pred(spec2, ws2, kind=kind, c=c):
                 r2 = S.run_case(spec2, ws2, c["seed"], c["fifo"], none_output=c.get("none_output"), report=c.get("report", False))
                 return any(p2 == prop and k2 == kind for (p2, k2, _) in S.oracle(r2, c["fifo"]))
-            small = shrink_case(c, pred) if len(ctx.violations) < 3 else c
+            small = shrink_case(c, pred, budget_s=20.0 if c["spec"].get("family") == "wide" else 60.0) if len(ctx.violations) < 3 else c
             if c.get("none_output") is not None:
                 small["none_output"] = c["none_output"]
             if c.get("report"):
                 small["report"] = True
             ctx.violation(sig, small, f"{kind}: {detail} (job with {len(small['spec']['tasks'])} tasks on {len(small['workers'])} workers, schedule seed {c['seed']}, {'fifo' if c['fifo'] else 'anyOrder'})")
     _replay_batch(ctx, prop, runs, batch_cases)
+    try:
+        for fut, r, c in wide_jobs:
+            _compare_batch(ctx, prop, [r], [c], fut.result())
+    finally:
+        wide_pool.shutdown(wait=False, cancel_futures=True)
     bridge_shell(ctx, prop)
 
 
@@ -186,6 +210,10 @@ def _replay_batch(ctx, prop, runs, cases):
     # C03 replays on the extended model (controller + scheduler bookkeeping: host->component, weights, domains of the
     # heuristics' dictionaries, control flow of assign()); the others on the base model
     out = lean_drive("CtrlX" if prop == "C03" else "Ctrl", lines)
+    _compare_batch(ctx, prop, runs, cases, out)
+
+
+def _compare_batch(ctx, prop, runs, cases, out):
     k = 0
     for r, c in zip(runs, cases):
         m = len(r["trace"])
